@@ -656,6 +656,9 @@ func c15GenContent0(t *rapid.T) ([]byte, string) {
 			return []byte(c15BOM), "bom"
 		case 1:
 			return []byte(c15BOM + c15BOM + "twice"), "bom"
+		case 2:
+			// the three bytes in front of content that is not text at all
+			return []byte(c15BOM + "\xff\xfe\x00binary\x80\x81"), "bom"
 		}
 		return []byte(c15BOM + "{{ .Values.x }}"), "bom"
 	case 5:
